@@ -137,6 +137,21 @@ KeepsOthers(p, e) ==
                    \/ (e.action.who # e.action.label /\ e.action.variant = "ok"
                           /\ KnownFor([ev |-> "SigRow", relabelled |-> TRUE]))
 
+(* C16: submissions consumed as one batch (message-queue path): another party's submission in the same     *)
+(* batch -- refused or not, before or after -- does not make an honest contribution disappear: a signature *)
+(* that the named party's own registered key verifies, for an open message that is open, is recorded       *)
+OpenAt(p, en) == \E m \in DOMAIN p.open : p.open[m].entity = en /\ ~p.open[m].certified /\ ~p.open[m].expired
+                                          /\ ~p.open[m].past_expiry
+BatchDelivers(p, e) ==
+    e.action.a = "SignBatch" =>
+        /\ \A i \in DOMAIN e.result.items :
+              LET it == e.result.items[i] IN
+              (it.built /\ it.owner >= 0 /\ it.owner = it.label /\ OpenAt(p, it.entity))
+                  => \E t \in DOMAIN e.obs.sigs : /\ e.obs.sigs[t].entity = it.entity
+                                                 /\ e.obs.sigs[t].label = it.label /\ e.obs.sigs[t].owner = it.label
+        /\ \A s \in DOMAIN p.sigs :                 \* rows of honest parties are kept
+              (p.sigs[s].owner = p.sigs[s].label) => \E t \in DOMAIN e.obs.sigs : e.obs.sigs[t] = p.sigs[s]
+
 (* C16: the published signer list names only parties whose own key signed *)
 SignerListHonest(p, o) ==
     \A i \in NewCerts(p, o) :
@@ -150,7 +165,7 @@ SignerListHonest(p, o) ==
 StepOk(p, e) ==
     /\ AppendOnly(p, e.obs)
     /\ C14 => NewCertRules(p, e.obs)
-    /\ C16 => (KeepsOthers(p, e) /\ SignerListHonest(p, e.obs))
+    /\ C16 => (KeepsOthers(p, e) /\ BatchDelivers(p, e) /\ SignerListHonest(p, e.obs))
 
 -----------------------------------------------------------------------------
 TraceInit == l = 1 /\ prev = [none |-> TRUE] /\ crashed = {}
